@@ -225,6 +225,9 @@ func (s *Streamsql) Emit(data map[string]interface{}) {
 		return
 	}
 	if s.schemaValidator != nil {
+		// Validate fills declared defaults into the row: work on a private copy so
+		// the map the caller passed in is left untouched.
+		data = copyRow(data)
 		if err := s.schemaValidator.Validate(data); err != nil {
 			n := atomic.AddInt64(&s.schemaDropped, 1)
 			if n == 1 || n%1000 == 0 {
@@ -273,12 +276,25 @@ func (s *Streamsql) EmitSync(data map[string]interface{}) (map[string]interface{
 	}
 
 	if s.schemaValidator != nil {
+		data = copyRow(data) // see Emit: defaults are filled into a private copy
 		if err := s.schemaValidator.Validate(data); err != nil {
 			atomic.AddInt64(&s.schemaDropped, 1)
 			return nil, fmt.Errorf("schema validation failed: %w", err)
 		}
 	}
 	return s.stream.ProcessSync(data)
+}
+
+// copyRow returns a shallow copy of a row (nil stays nil).
+func copyRow(data map[string]interface{}) map[string]interface{} {
+	if data == nil {
+		return nil
+	}
+	row := make(map[string]interface{}, len(data)+1)
+	for k, v := range data {
+		row[k] = v
+	}
+	return row
 }
 
 // SchemaDropped returns the count of rows dropped by schema validation.
